@@ -41,7 +41,16 @@ type alloc struct {
 	tag    int
 	temp   bool // destination temporary of a defragmentation pass
 	live   bool
+	// what the planner handed to the block list for a temporary: the kind the destination request was
+	// created under (AllocationRequest.AllocType), the flags and the kind given to the commit
+	reqKind   uint32
+	reqFlags  uint32
+	commitKnd uint32
 }
+
+// moveFlags is the Flags value the block list reports for an allocation: never equal to a kind, so an
+// interchange of the two adjacent uint32 arguments inside the planner is visible
+func moveFlags(kind uint32) uint32 { return kind + 0x1000 }
 
 type block struct {
 	id   int
@@ -115,6 +124,7 @@ func (w *world) MoveDataForUserData(userData any) defrag.MoveAllocationData[allo
 	return defrag.MoveAllocationData[alloc]{
 		Alignment:         a.align,
 		SuballocationType: a.kind,
+		Flags:             moveFlags(a.kind),
 		Move: defrag.DefragmentationMove[alloc]{
 			Size:             a.size,
 			SrcAllocation:    a,
@@ -133,7 +143,7 @@ func (w *world) CommitDefragAllocationRequest(req metadata.AllocationRequest, bl
 		return err
 	}
 	*out = alloc{slot: len(w.slots), blk: b, handle: req.BlockAllocationHandle, size: req.Size, align: alignment,
-		kind: suballocType, tag: -1, temp: true, live: true}
+		kind: suballocType, tag: -1, temp: true, live: true, reqKind: req.AllocType, reqFlags: flags, commitKnd: suballocType}
 	w.slots = append(w.slots, out)
 	return nil
 }
